@@ -99,7 +99,7 @@ Proof.
     destruct (mech_is_error m''); intros; inv_step; lia.
   - destruct (dec_buffer (c_maxsz cfg) b) as [| | |f k] eqn:E; try discriminate; try (intros; inv_step; lia).
     pose proof (dec_buffer_consumed _ _ _ _ E).
-    destruct (parse_cmd f); intros; inv_step; lia.
+    destruct (parse_cmd f); try destruct (ready_incompatible _ _); intros; inv_step; lia.
   - destruct (negb (e_v2_sent st)); try (intros; inv_step; lia).
     destruct (dec_buffer (c_maxsz cfg) b) as [| | |f k] eqn:E; try discriminate; try (intros; inv_step; lia).
     pose proof (dec_buffer_consumed _ _ _ _ E).
@@ -109,7 +109,7 @@ Proof.
     pose proof (dec_buffer_consumed _ _ _ _ E).
     destruct (f_cmd f).
     + destruct (e_version st) as [[|]|]; try (intros; inv_step; lia);
-        destruct (parse_cmd f); intros; inv_step; lia.
+        destruct (parse_cmd f); try destruct (ready_incompatible _ _); intros; inv_step; lia.
     + destruct (MAX_FRAMES <=? length (e_partial st))%nat; [intros; inv_step; lia|].
       destruct (f_more f); intros; inv_step; lia.
 Qed.
@@ -187,7 +187,7 @@ Proof.
   - destruct (dec_buffer (c_maxsz cfg) b) as [| | |f k] eqn:E; try discriminate.
     { intros; inv_step. right; split; auto. rewrite emu_closed. apply emu_pos. congruence. }
     pose proof (dec_buffer_consumed _ _ _ _ E).
-    destruct (parse_cmd f); intros; inv_step; left; (split; [lia|apply emu_le]).
+    destruct (parse_cmd f); try destruct (ready_incompatible _ _); intros; inv_step; left; (split; [lia|apply emu_le]).
   - destruct (negb (e_v2_sent st)) eqn:Es.
     { intros; inv_step. right; split; auto.
       unfold emu; cbn [e_phase e_rev_sent e_version e_v2_sent e_mech]. rewrite Ep.
@@ -202,7 +202,7 @@ Proof.
     pose proof (dec_buffer_consumed _ _ _ _ E).
     destruct (f_cmd f).
     + destruct (e_version st) as [[|]|]; try (intros; inv_step; left; split; [lia|apply emu_le]);
-        destruct (parse_cmd f); intros; inv_step; left; (split; [lia|apply emu_le]).
+        destruct (parse_cmd f); try destruct (ready_incompatible _ _); intros; inv_step; left; (split; [lia|apply emu_le]).
     + destruct (MAX_FRAMES <=? length (e_partial st))%nat; [intros; inv_step; left; split; [lia|apply emu_le]|].
       destruct (f_more f); intros; inv_step; left; (split; [lia|apply emu_le]).
 Qed.
